@@ -15,6 +15,7 @@ import (
 	"encoding/json"
 	"fmt"
 	"io"
+	"net"
 	"os"
 	"os/exec"
 	"path/filepath"
@@ -55,6 +56,8 @@ type e2eCfg struct {
 	timeout   int    // server -t; 0 = default 20
 	proto     int    // -1 leave the handshake alone; 0 remove the protocol field (v1); 2, 3, 4, 9 force
 	quiet     bool
+	relays    int  // number of trzsz relays (jump hosts) between the client and the server
+	tunnel    bool // give the client (and the relays) a tunnel connector (TCP on 127.0.0.1)
 	hook      e2eHook
 	// events triggered by the harness while the transfer runs
 	onStart func(r *e2eRun)
@@ -281,7 +284,29 @@ func runTransfer(cfg e2eCfg, src []string, dest string) e2eResult {
 	cliInR, cliInW := io.Pipe()
 	r.cliIn = cliInW
 	svrOutR, svrOutW := io.Pipe()
-	filter := trzsz.NewTrzszFilter(cliInR, termWriter{r}, serverInWriter{r}, svrOutR, trzsz.TrzszOptions{TerminalColumns: 100})
+	// optional chain of relays between the client and the (hooked) link to the server
+	var upIn io.WriteCloser = serverInWriter{r}
+	var upOut io.Reader = svrOutR
+	connector := func(port int) net.Conn {
+		conn, err := net.DialTimeout("tcp", fmt.Sprintf("127.0.0.1:%d", port), time.Second)
+		if err != nil {
+			return nil
+		}
+		return conn
+	}
+	for i := 0; i < cfg.relays; i++ {
+		aR, aW := io.Pipe()
+		bR, bW := io.Pipe()
+		relay := trzsz.NewTrzszRelay(aR, bW, upIn, upOut, trzsz.TrzszOptions{})
+		if cfg.tunnel {
+			relay.SetTunnelConnector(connector)
+		}
+		upIn, upOut = aW, bR
+	}
+	filter := trzsz.NewTrzszFilter(cliInR, termWriter{r}, upIn, upOut, trzsz.TrzszOptions{TerminalColumns: 100})
+	if cfg.tunnel {
+		filter.SetTunnelConnector(connector)
+	}
 	r.filter = filter
 	var upCh <-chan error
 	if cfg.upload {
